@@ -167,6 +167,7 @@ def parse_assumptions(makelog):
 def coq_eval(workdir, name, body, timeout=600):
     """compile a scratch file against the built development and return coqc's stdout.  `body` is Coq source."""
     os.makedirs(workdir, exist_ok=True)
+    name = '%s_p%d' % (name, os.getpid())     # concurrent runs of the same check must not share scratch files
     p = os.path.join(workdir, name + '.v')
     open(p, 'w').write(body)
     rc, out = sh(['timeout', str(timeout), 'coqc', '-q', '-Q', COQ, 'DV', '-w', '-all', p], timeout=timeout + 30, cwd=workdir)
@@ -177,6 +178,8 @@ def coq_eval(workdir, name, body, timeout=600):
     aux = os.path.join(workdir, '.' + name + '.aux')
     if os.path.exists(aux):
         os.unlink(aux)
+    if rc == 0 and os.path.exists(p):
+        os.unlink(p)
     return rc, out
 
 
